@@ -121,6 +121,15 @@ Theorem C16_runner_steps_are_atomic_steps : forall s op s' o,
 Proof. exact op_step_reach. Qed.
 Print Assumptions C16_runner_steps_are_atomic_steps.
 
+(* Race mode (cfg [max; 1]): the driver runs finish() against concurrently running
+   producers/consumers and counts outcomes that the theorems above exclude for every
+   interleaving of whole methods (channel left armed after finish, an accepted clientHeaders
+   not orphaned exactly once, panic, hang); the model's observation is "none". *)
+Theorem C16_race_trace_holds : forall m ops, forallb race_wf ops = true ->
+  exists obs, run [m; 1] ops = Some obs /\ holds_b [m; 1] ops obs = true.
+Proof. exact race_trace_holds. Qed.
+Print Assumptions C16_race_trace_holds.
+
 (* non-vacuity: limit 1; a reader loads the channel, the producer refills after the writer
    drained: the reader holding the old (closed) channel is released although the count is
    at the limit again, a new reader blocks, and finish orphans header 9 and releases it. *)
